@@ -9,8 +9,10 @@ import z3
 from .values import *
 from .symexec import SymRaise, Unsupported, VDictItems, VDictKeys
 
-TRUSTED = ["IDView.from_view(view, bunch) yields the sub-view with exactly the ids of bunch (IDNotFound for a foreign id); view.filterby('degree'|'size', k) yields the ids whose degree / size is k (stat dispatch by name assumed)",
-           "EdgeView.members(e) / NodeView.memberships(n) return a copy of the table entry (IDNotFound if absent); view.items() iterates ids with their attribute records"]
+TRUSTED = ["ASSUMED view model: IDView.from_view(view, bunch) yields the sub-view with exactly the ids of bunch (IDNotFound for a foreign id); view.filterby('degree'|'size', k) yields the "
+           "ids whose degree / size is k (statistic dispatch by name); view.items() iterates the ids with their attribute records",
+           "callers of H.edges.members(e | dtype=dict), H.nodes.memberships(n), H.nodes.neighbors(n), isolates(), singletons(), empty() are verified against the contracts of those accessors; "
+           "the contracts themselves are discharged against the real methods by the C06 check (contracts/views.py), i.e. modular use, not an assumption"]
 
 
 def view_method(ex, view, name, args, kw, node):
